@@ -2,11 +2,13 @@
 // exploration of TXPoolServer is a separate section of this driver, see server.go when present).
 //
 // (b) The real txnpool/common.TXPool is built with `import "sync"` rewritten to the ssync shim, so every lock
-//     acquire/release is a scheduling point owned by the explorer. For each scenario (3 goroutines x <=2 operations on
-//     colliding transactions) ALL schedules with at most B preemptions are enumerated (iterative context bounding);
-//     each complete execution's call/return history is checked for linearizability against a map model (porcupine),
-//     and the pool invariants (no duplicate hash, hand-out size/height rule, clean removes exactly the block's txs) are
-//     part of the model's output validation. Deadlock (no enabled thread) and panics are violations.
+//
+//	acquire/release is a scheduling point owned by the explorer. For each scenario (3 goroutines x <=2 operations on
+//	colliding transactions) ALL schedules with at most B preemptions are enumerated (iterative context bounding);
+//	each complete execution's call/return history is checked for linearizability against a map model (porcupine),
+//	and the pool invariants (no duplicate hash, hand-out size/height rule, clean removes exactly the block's txs) are
+//	part of the model's output validation. Deadlock (no enabled thread) and panics are violations.
+//
 // (c) The same bodies run free (real sync, no shim) in a separate -race binary: a reported data race is a violation.
 package main
 
@@ -27,6 +29,7 @@ import (
 	tc "github.com/polynetwork/poly/txnpool/common"
 	vt "github.com/polynetwork/poly/validator/types"
 	"verif.local/engine/ev"
+	"verif.local/engine/lib/maporder"
 
 	pcommon "github.com/polynetwork/poly/common"
 )
@@ -34,11 +37,11 @@ import (
 // ---------------------------------------------------------------- operations
 
 type op struct {
-	Kind   string   // add del clean get count unverified remain gettx
-	Tx     string   // a b c
-	Txs    []string // for clean / unverified
-	H      uint32   // verify height (add) or requested height (get / unverified)
-	ByCnt  bool
+	Kind  string   // add del clean get count unverified remain gettx
+	Tx    string   // a b c
+	Txs   []string // for clean / unverified
+	H     uint32   // verify height (add) or requested height (get / unverified)
+	ByCnt bool
 }
 
 func (o op) String() string {
@@ -58,11 +61,11 @@ func (o op) String() string {
 }
 
 type out struct {
-	Bool   bool
-	N      int
-	Set    []string // sorted names
-	Old    []string
-	Unver  []string
+	Bool  bool
+	N     int
+	Set   []string // sorted names
+	Old   []string
+	Unver []string
 }
 
 var txs = map[string]*types.Transaction{}
@@ -175,6 +178,7 @@ func subset(a, b []string) bool {
 }
 
 var maxTx = 0
+var pinned uint16 // map-iteration start used for the whole execution (explored: 0..2)
 
 // step validates the observed output against the model state and returns the next state.
 func step(st mstate, o op, r out) (bool, mstate) {
@@ -297,8 +301,8 @@ func scenarios() []scenario {
 }
 
 type result struct {
-	hist   []porcupine.Operation
-	x      ssync.Exec
+	hist []porcupine.Operation
+	x    ssync.Exec
 }
 
 func runOnce(sc scenario, prefix []int) result {
@@ -325,7 +329,9 @@ func runOnce(sc scenario, prefix []int) result {
 			}
 		}
 	}
+	maporder.PinAll(pinned) // map iteration (GetTxPool / Remain range over the pool map) is owned too: reproducible executions
 	x := ssync.Run(bodies, prefix)
+	maporder.Unpin()
 	for _, l := range per {
 		hist = append(hist, l...)
 	}
@@ -390,60 +396,64 @@ func main() {
 	r.Require("linearizable", "race_pass_clean_or_reported")
 	totalExec, totalPoints := 0, 0
 	outcomes := map[string]bool{}
-	for _, sc := range scenarios() {
-		sc := sc
-		execs := 0
-		var explore func(prefix []int)
-		explore = func(prefix []int) {
-			if r.Expired() {
-				r.Capped("schedules of " + sc.Name)
-				return
-			}
-			res := runOnce(sc, prefix)
-			execs++
-			totalExec++
-			totalPoints += len(res.x.Points)
-			r.Eval()
-			// determinism of the harness itself: the first few executions are replayed and must agree
-			if execs <= 3 {
-				again := runOnce(sc, res.x.Choices)
-				if fmt.Sprint(describe(sc, again)["history"]) != fmt.Sprint(describe(sc, res)["history"]) {
-					r.HarnessError("schedule replay diverged in scenario %s", sc.Name)
+	for _, scp := range scenarios() {
+		for pin := uint16(0); pin < 3; pin++ {
+			sc := scp
+			pinned = pin
+			sc.Name = fmt.Sprintf("%s/maporder%d", scp.Name, pin)
+			execs := 0
+			var explore func(prefix []int)
+			explore = func(prefix []int) {
+				if r.Expired() {
+					r.Capped("schedules of " + sc.Name)
+					return
+				}
+				res := runOnce(sc, prefix)
+				execs++
+				totalExec++
+				totalPoints += len(res.x.Points)
+				r.Eval()
+				// determinism of the harness itself: the first few executions are replayed and must agree
+				if execs <= 3 {
+					again := runOnce(sc, res.x.Choices)
+					if fmt.Sprint(describe(sc, again)["history"]) != fmt.Sprint(describe(sc, res)["history"]) {
+						r.HarnessError("schedule replay diverged in scenario %s", sc.Name)
+					}
+				}
+				var sig []string
+				for _, o := range res.hist {
+					sig = append(sig, fmt.Sprintf("%v=%+v", o.Input.(op), o.Output.(out)))
+				}
+				sort.Strings(sig)
+				outcomes[sc.Name+"|"+strings.Join(sig, ";")] = true
+				switch {
+				case res.x.Deadlock:
+					r.Violation("deadlock:"+sc.Name, describe(sc, res))
+				case len(res.x.Panics) > 0:
+					r.Violation("panic:"+sc.Name, describe(sc, res))
+				case !porcupine.CheckOperations(model, res.hist):
+					r.Violation("not-linearizable:"+sc.Name, describe(sc, res))
+				default:
+					r.Class("linearizable")
+				}
+				for i := len(prefix); i < len(res.x.Points); i++ {
+					p := res.x.Points[i]
+					for alt := 1; alt < len(p.Enabled); alt++ {
+						cost := res.x.PreemptionsBefore(i)
+						if p.RunningEnabled {
+							cost++ // switching away from a thread that could continue
+						}
+						if cost > bound {
+							continue
+						}
+						explore(append(append([]int{}, res.x.Choices[:i]...), alt))
+					}
 				}
 			}
-			var sig []string
-			for _, o := range res.hist {
-				sig = append(sig, fmt.Sprintf("%v=%+v", o.Input.(op), o.Output.(out)))
-			}
-			sort.Strings(sig)
-			outcomes[sc.Name+"|"+strings.Join(sig, ";")] = true
-			switch {
-			case res.x.Deadlock:
-				r.Violation("deadlock:"+sc.Name, describe(sc, res))
-			case len(res.x.Panics) > 0:
-				r.Violation("panic:"+sc.Name, describe(sc, res))
-			case !porcupine.CheckOperations(model, res.hist):
-				r.Violation("not-linearizable:"+sc.Name, describe(sc, res))
-			default:
-				r.Class("linearizable")
-			}
-			for i := len(prefix); i < len(res.x.Points); i++ {
-				p := res.x.Points[i]
-				for alt := 1; alt < len(p.Enabled); alt++ {
-					cost := res.x.PreemptionsBefore(i)
-					if p.RunningEnabled {
-						cost++ // switching away from a thread that could continue
-					}
-					if cost > bound {
-						continue
-					}
-					explore(append(append([]int{}, res.x.Choices[:i]...), alt))
-				}
-			}
+			explore(nil)
+			r.Case(fmt.Sprintf("%s executions=%d", sc.Name, execs))
+			r.Sample(map[string]any{"scenario": sc.Name, "threads": fmt.Sprint(sc.Threads), "pre": fmt.Sprint(sc.Pre), "schedules": execs})
 		}
-		explore(nil)
-		r.Case(fmt.Sprintf("%s executions=%d", sc.Name, execs))
-		r.Sample(map[string]any{"scenario": sc.Name, "threads": fmt.Sprint(sc.Threads), "pre": fmt.Sprint(sc.Pre), "schedules": execs})
 	}
 	r.Note("distinct_observed_outcomes", len(outcomes))
 	if len(outcomes) < 3*len(scenarios()) {
@@ -473,13 +483,13 @@ func main() {
 		"RLock is enabled whenever no writer holds the lock (Go's writer preference is not modelled: superset of real schedules)",
 		"3 goroutines x <=2 operations per scenario, transactions forced to collide")
 	r.Finish(map[string]any{
-		"rule":        fmt.Sprintf("%d scenarios; all schedules with <= %d preemptions (iterative context bounding, DFS over choice prefixes); every history checked for linearizability against a map model with output validation", len(scenarios()), bound),
-		"states":      totalPoints,
-		"transitions": totalPoints,
+		"rule":                          fmt.Sprintf("%d scenarios; all schedules with <= %d preemptions (iterative context bounding, DFS over choice prefixes); every history checked for linearizability against a map model with output validation", len(scenarios()), bound),
+		"states":                        totalPoints,
+		"transitions":                   totalPoints,
 		"traces_validated_against_impl": totalExec,
-		"schedules":        totalExec,
-		"preemption_bound": bound,
-		"distinct_nontrivial": len(outcomes),
+		"schedules":                     totalExec,
+		"preemption_bound":              bound,
+		"distinct_nontrivial":           len(outcomes),
 	})
 }
 
